@@ -327,3 +327,78 @@ Qed.
 
 Lemma inv_opshare_b_of s : OpInv s -> inv_opshare_b s = true.
 Proof. intros HO. unfold inv_opshare_b. apply forallb_forall. intros [o a] _. simpl. apply Z.eqb_eq. apply HO. Qed.
+
+(* ---------------- well-formed ids discharge the scan hypothesis ---------------- *)
+(* with the "/" delimiter in the scan prefix, ids that contain no "/" are scanned exactly *)
+Fixpoint noslash (s : string) : bool :=
+  match s with
+  | EmptyString => true
+  | String c r => negb (Ascii.eqb c "/"%char) && noslash r
+  end.
+
+Lemma prefix_nil s : String.prefix "" s = true.
+Proof. destruct s; reflexivity. Qed.
+
+Lemma prefix_cons a s1 b s2 :
+  String.prefix (String a s1) (String b s2) = if ascii_dec a b then String.prefix s1 s2 else false.
+Proof. reflexivity. Qed.
+
+Lemma app_cons c s t : (String c s ++ t)%string = String c (s ++ t)%string.
+Proof. reflexivity. Qed.
+
+Lemma app_nil_l t : ("" ++ t)%string = t.
+Proof. reflexivity. Qed.
+
+Lemma noslash_cons c s : noslash (String c s) = true -> c <> "/"%char /\ noslash s = true.
+Proof.
+  simpl. intros H. apply andb_true_iff in H. destruct H as [Hc Hs]. split; [|assumption].
+  intro E. subst c. rewrite Ascii.eqb_refl in Hc. discriminate.
+Qed.
+
+Lemma prefix_delim_exact st : forall st' rest, noslash st = true -> noslash st' = true ->
+  String.prefix (st ++ "/") (st' ++ "/" ++ rest) = String.eqb st' st.
+Proof.
+  induction st as [|c s IH]; intros st' rest H H'.
+  - destruct st' as [|c' s'].
+    + rewrite !app_nil_l, app_cons, prefix_cons, prefix_nil. destruct (ascii_dec "/" "/"); [reflexivity|congruence].
+    + apply noslash_cons in H'. destruct H' as [Hc _].
+      rewrite app_nil_l, app_cons, prefix_cons. destruct (ascii_dec "/" c') as [E|E]; [congruence|reflexivity].
+  - apply noslash_cons in H. destruct H as [Hc Hs].
+    destruct st' as [|c' s'].
+    + rewrite app_nil_l, !app_cons, prefix_cons. destruct (ascii_dec c "/") as [E|E]; [congruence|reflexivity].
+    + apply noslash_cons in H'. destruct H' as [_ Hs'].
+      rewrite !app_cons, prefix_cons. simpl String.eqb.
+      destruct (ascii_dec c c') as [E|E].
+      * subst c'. rewrite Ascii.eqb_refl. apply IH; assumption.
+      * destruct (Ascii.eqb c' c) eqn:E2; [apply Ascii.eqb_eq in E2; congruence|reflexivity].
+Qed.
+
+Lemma scan_hit_exact st k : noslash st = true -> noslash (fst (fst k)) = true ->
+  scan_hit st k = String.eqb (fst (fst k)) st.
+Proof.
+  intros H H'. destruct k as [[st' a] o]. unfold scan_hit, row_key. simpl fst. simpl snd.
+  apply prefix_delim_exact; assumption.
+Qed.
+
+(* every staker id that the history uses (in Delegate, Associate, Dissociate) is free of "/" *)
+Definition wf_ids_b (l : list op) : bool :=
+  forallb (fun x => match x with
+                    | Delegate st _ _ _ | Associate _ st _ | Dissociate st => noslash st
+                    | _ => true end) l.
+
+Lemma wf_ids_scan_exact l : wf_ids_b l = true -> scan_exact_b l = true.
+Proof.
+  intros H. unfold wf_ids_b in H. rewrite forallb_forall in H.
+  assert (K : forall k, In k (delegate_keys l) -> noslash (fst (fst k)) = true).
+  { intros k Hk. unfold delegate_keys in Hk. apply in_flat_map in Hk. destruct Hk as [x [Hx Hk]].
+    specialize (H x Hx). destruct x; simpl in Hk; try contradiction.
+    destruct Hk as [<-|[]]. exact H. }
+  unfold scan_exact_b. apply forallb_forall. intros x Hx. specialize (H x Hx).
+  destruct x; try reflexivity.
+  - unfold scan_exact_on. apply forallb_forall. intros k Hk. rewrite scan_hit_exact; auto. apply eqb_reflx.
+  - unfold scan_exact_on. apply forallb_forall. intros k Hk. rewrite scan_hit_exact; auto. apply eqb_reflx.
+Qed.
+
+Theorem operator_share_wf ops l : wf_ids_b l = true ->
+  forall o a, p_op (pool_of (run ops st0 l) o a) = rows_sum_assoc (st_assoc (run ops st0 l)) (st_rows (run ops st0 l)) o a.
+Proof. intros H. apply operator_share_exact. apply wf_ids_scan_exact. assumption. Qed.
